@@ -72,17 +72,22 @@ Theorem C09_api_sequences_hold_nothing : forall l r,
 Proof. exact api_sequences_lock. Qed.
 Print Assumptions C09_api_sequences_hold_nothing.
 
-(* close_returns (liveness of the shutdown path, hand-written model Lock/CloseLive.v, NOT generated
-   from the source): under the environment assumptions A1-A4 spelled out there (call-outs return
-   after cancellation, RecvMessage returns on cancel, the waited-for channels get closed,
-   Transport.Close returns) and with a closer that is not itself a counted task (C09_lock_sound,
-   VWaitOwnTask), from the state right after shutdown's cancel there is no infinite execution and
-   every execution that cannot continue has Close returned. *)
-Theorem C09_close_returns : forall s, cancelled s = true -> closer_counted s = false -> ph s <> PHolding ->
+(* close_returns_model.  NOT a statement about the code: Lock/CloseLive.v is a hand-written
+   4-field counter system (cancelled?, number of outstanding tasks, phase of the closer, is the
+   closer itself a counted task) in which LIVENESS IS ASSUMED: a "task finishes" step is enabled
+   whenever a task other than a counted closer is outstanding (assumptions A1-A4 of that file:
+   call-outs return after cancellation, RecvMessage returns on cancel, waited-for channels get
+   closed, Transport.Close returns).  It omits the second Close's <-c.shut, the waits for the sender
+   lock and q.finishMsgSend.  What it shows: given those assumptions and a closer that is not a
+   counted task (the one link to the code: C09_lock_sound / VWaitOwnTask), the counter system has no
+   infinite execution after cancel and can only stop with Close returned; with a counted closer
+   (seeded C08-1) it is stuck (self_wait_stuck_refuted).  "Close returns" for the real code is
+   observed by the fault-enumeration runs only. *)
+Theorem C09_close_returns_model : forall s, cancelled s = true -> closer_counted s = false -> ph s <> PHolding ->
   Acc (fun a b => cstep b a /\ cancelled b = true) s /\
   (forall s', clos_refl_trans _ cstep s s' -> (forall s'', ~ cstep s' s'') -> ph s' = PReturned).
 Proof. exact close_returns. Qed.
-Print Assumptions C09_close_returns.
+Print Assumptions C09_close_returns_model.
 
 (* the checker itself, for all programs *)
 Theorem C09_checker_sound : forall P, check_prog P = true ->
